@@ -15,6 +15,7 @@ import (
 	"flag"
 	"fmt"
 	"io"
+	"net"
 	"os"
 	"strconv"
 	"strings"
@@ -28,7 +29,9 @@ import (
 	gpb "github.com/openconfig/gnmi/proto/gnmi"
 	"github.com/openconfig/gnmi/zz_verif/vh"
 	"google.golang.org/grpc"
+	"google.golang.org/grpc/codes"
 	"google.golang.org/grpc/metadata"
+	"google.golang.org/grpc/status"
 )
 
 // Item is what one Recv of the scripted transport does.
@@ -38,6 +41,9 @@ type Item struct {
 	K    string `json:"k"`
 	N    int    `json:"n,omitempty"`
 	Stop bool   `json:"stop,omitempty"`
+	// E: which error value an "err" item returns (see errOf); a "block" item
+	// returns the context's own error once cancelled (what real transports do).
+	E string `json:"e,omitempty"`
 }
 
 // Attempt is the script of one (re)connection.
@@ -45,6 +51,14 @@ type Attempt struct {
 	Init  bool   `json:"init"`
 	Sub   bool   `json:"sub"`
 	Items []Item `json:"items"`
+	// IE / SE: error kind returned by a failing constructor / Impl.Subscribe.
+	IE string `json:"ie,omitempty"`
+	SE string `json:"se,omitempty"`
+	// Dial: the constructor of this attempt is the real client/gnmi New,
+	// dialling a target that never completes a connection: silent (accepts TCP,
+	// never speaks), refuse (nobody listens), closing (accepts and closes).
+	// Such an attempt can only fail (Init must be false).
+	Dial string `json:"dial,omitempty"`
 }
 
 // Act is "do What (close | cancel) when the subscriber reaches Gate".
@@ -82,6 +96,66 @@ type Case struct {
 func (c Case) reconnect() bool { return strings.HasPrefix(c.Kind, "re") }
 
 var errImpl = errors.New("scripted transport error")
+
+// errOf maps an error kind of the script alphabet to an error value.  The
+// client must treat all of them alike (any error other than the bare io.EOF /
+// ErrStopReading ends the attempt with an error).
+func errOf(kind string) error {
+	switch kind {
+	case "canceled":
+		return context.Canceled
+	case "deadline":
+		return context.DeadlineExceeded
+	case "eofwrapped":
+		return fmt.Errorf("stream broke: %w", io.EOF)
+	case "stopwrapped":
+		return fmt.Errorf("wrapped: %w", client.ErrStopReading)
+	case "grpccanceled":
+		return status.Error(codes.Canceled, "context canceled")
+	case "unavailable":
+		return status.Error(codes.Unavailable, "transport is closing")
+	}
+	return errImpl
+}
+
+var errKinds = []string{"", "canceled", "deadline", "eofwrapped", "stopwrapped", "grpccanceled", "unavailable"}
+
+// dial targets for the real client/gnmi constructor
+var dialAddr = map[string]string{}
+
+func setupDialTargets() {
+	hold := func(closeAtOnce bool) string {
+		lis, err := net.Listen("tcp", "127.0.0.1:0")
+		if err != nil {
+			vh.Die("listen: %v", err)
+		}
+		go func() {
+			var keep []net.Conn
+			for {
+				c, err := lis.Accept()
+				if err != nil {
+					return
+				}
+				if closeAtOnce {
+					c.Close()
+				} else {
+					keep = append(keep, c) // never read, never written
+				}
+			}
+		}()
+		return lis.Addr().String()
+	}
+	dialAddr["silent"] = hold(false)
+	dialAddr["closing"] = hold(true)
+	lis, err := net.Listen("tcp", "127.0.0.1:0")
+	if err != nil {
+		vh.Die("listen: %v", err)
+	}
+	dialAddr["refuse"] = lis.Addr().String()
+	lis.Close()
+}
+
+const dialTimeout = 12 * time.Second // Destination.Timeout of the dial family, well above the watchdog
 
 const watchdog = 5 * time.Second
 
@@ -285,8 +359,37 @@ func factory(ctx context.Context, d client.Destination) (client.Impl, error) {
 	}
 	s.gate(fmt.Sprintf("init:%d", k))
 	a := s.attempt(k)
-	if !a.Init || ctx.Err() != nil {
-		return nil, errImpl
+	if a.Dial != "" {
+		// the real gNMI constructor, against a target that never connects: it
+		// must come back as soon as the context it was given is cancelled
+		s.later(fmt.Sprintf("dial:%d", k))
+		go func() { // fallback so that the scenario ends on the unchanged tree
+			select {
+			case <-time.After(300 * time.Millisecond):
+			case <-s.dead:
+				return
+			}
+			if atomic.LoadInt32(&s.stopCalled) == 0 {
+				if s.c.reconnect() {
+					s.act(Act{What: "close"}, false)
+				} else {
+					s.act(Act{What: "cancel"}, false)
+				}
+			}
+		}()
+		im, err := gclient.New(ctx, client.Destination{Addrs: []string{dialAddr[a.Dial]}, Timeout: dialTimeout})
+		if err == nil {
+			im.Close()
+			s.log(Ev{T: "panic"}) // cannot happen: nothing answers at that address
+			return nil, errImpl
+		}
+		return nil, err
+	}
+	if !a.Init {
+		return nil, errOf(a.IE)
+	}
+	if ctx.Err() != nil {
+		return nil, ctx.Err()
 	}
 	var ups []interface{}
 	for i, it := range a.Items {
@@ -384,8 +487,11 @@ func (m *impl) Subscribe(ctx context.Context, q client.Query) error {
 	m.s.gate(fmt.Sprintf("sub:%d", m.k))
 	// postsub:k: while the client installs the transport and enters its read loop
 	defer m.s.later(fmt.Sprintf("postsub:%d", m.k))
-	if !m.a.Sub || ctx.Err() != nil {
-		return errImpl
+	if !m.a.Sub {
+		return errOf(m.a.SE)
+	}
+	if ctx.Err() != nil {
+		return ctx.Err()
 	}
 	return m.inner.Subscribe(ctx, q)
 }
@@ -427,7 +533,7 @@ func (m *impl) Recv() error {
 		}
 		return err
 	case "err":
-		return errImpl
+		return errOf(it.E)
 	case "eof":
 		if it.Stop {
 			return client.ErrStopReading
@@ -445,6 +551,7 @@ func (m *impl) Recv() error {
 		}
 		select {
 		case <-m.ctx.Done():
+			return m.ctx.Err() // context.Canceled: what a real stream reports
 		case <-m.closed:
 		case <-m.s.dead:
 		}
@@ -604,7 +711,11 @@ func runCase(c Case) []Ev {
 		<-start
 		s.log(Ev{T: "subcall"})
 		err := cl.Subscribe(ctx, q, "c18")
-		s.log(Ev{T: "subret", R: rcls(err)})
+		r := rcls(err)
+		if !c.reconnect() && r == "canceled" {
+			r = "other" // a bare client hands the transport's error through; only nil / non-nil is specified
+		}
+		s.log(Ev{T: "subret", R: r})
 	}()
 	close(start)
 	timer := time.NewTimer(watchdog)
@@ -732,12 +843,13 @@ func caseTerm(c Case) string {
 // ---------------------------------------------------------------------------
 // generators
 
-func msg() Item   { return Item{K: "msg", N: 1} }
-func msg3() Item  { return Item{K: "msg", N: 3} }
-func eof() Item   { return Item{K: "eof"} }
-func stop() Item  { return Item{K: "eof", Stop: true} }
-func ierr() Item  { return Item{K: "err"} }
-func block() Item { return Item{K: "block"} }
+func msg() Item              { return Item{K: "msg", N: 1} }
+func msg3() Item             { return Item{K: "msg", N: 3} }
+func eof() Item              { return Item{K: "eof"} }
+func stop() Item             { return Item{K: "eof", Stop: true} }
+func ierr() Item             { return Item{K: "err"} }
+func ierrK(kind string) Item { return Item{K: "err", E: kind} }
+func block() Item            { return Item{K: "block"} }
 func ok(items ...Item) Attempt {
 	return Attempt{Init: true, Sub: true, Items: items}
 }
@@ -751,14 +863,15 @@ func scripts() [][]Attempt {
 		{ok(block())},
 		{ok(msg(), msg3(), msg(), block())},
 		{ok(msg(), eof()), ok(msg(), block())},
-		{ok(msg(), stop()), ok(msg(), ierr()), ok(msg(), msg(), block())},
+		{ok(msg(), stop()), ok(msg(), ierrK("canceled")), ok(msg(), msg(), block())},
 		{ok(), ok(msg(), msg()), ok(block())},
-		{ok(eof()), {Init: false}, {Init: true, Sub: false}, ok(msg(), block())},
-		{ok(msg(), eof()), ok(ierr()), ok(msg(), msg(), eof()), ok(block())},
-		{ok(msg(), ierr()), ok(msg(), block())},
-		{{Init: false}, ok(msg(), block())},
+		{ok(eof()), {Init: false, IE: "canceled"}, {Init: true, Sub: false, SE: "deadline"}, ok(msg(), block())},
+		{ok(msg(), eof()), ok(ierrK("grpccanceled")), ok(msg(), msg(), eof()), ok(block())},
+		{ok(msg(), ierrK("eofwrapped")), ok(msg(), block())},
+		{{Init: false, IE: "deadline"}, ok(msg(), block())},
 		{ok(msg(), msg(), msg(), msg(), msg(), msg())},
-		{ok(stop()), ok(msg(), msg(), msg(), eof()), ok(msg(), msg(), msg(), ierr())},
+		{ok(stop()), ok(msg(), msg(), msg(), eof()), ok(msg(), msg(), msg(), ierrK("stopwrapped"))},
+		{ok(msg(), eof()), ok(ierrK("canceled")), ok(msg(), ierrK("deadline")), ok(msg(), ierr()), ok(block())},
 	}
 }
 
@@ -772,6 +885,9 @@ func gates(as []Attempt, reconnect bool) []string {
 	for k := 0; k < n; k++ {
 		a := as[k]
 		gs = append(gs, fmt.Sprintf("init:%d", k))
+		if a.Dial != "" {
+			gs = append(gs, fmt.Sprintf("dial:%d", k))
+		}
 		if a.Init {
 			gs = append(gs, fmt.Sprintf("sub:%d", k))
 		}
@@ -814,12 +930,15 @@ func randScript(r *vh.Rand, allowEmpty bool) []Attempt {
 	n := 1 + r.Intn(4)
 	as := make([]Attempt, n)
 	for k := range as {
-		switch r.Pick(1, 1, 10) {
+		switch r.Pick(2, 2, 20, 1) {
 		case 0:
-			as[k] = Attempt{Init: false}
+			as[k] = Attempt{Init: false, IE: errKinds[r.Intn(len(errKinds))]}
 			continue
 		case 1:
-			as[k] = Attempt{Init: true, Sub: false}
+			as[k] = Attempt{Init: true, Sub: false, SE: errKinds[r.Intn(len(errKinds))]}
+			continue
+		case 3:
+			as[k] = Attempt{Dial: []string{"silent", "refuse", "closing"}[r.Intn(3)]}
 			continue
 		}
 		var its []Item
@@ -839,7 +958,7 @@ func randScript(r *vh.Rand, allowEmpty bool) []Attempt {
 		case 2:
 			its = append(its, stop())
 		case 3:
-			its = append(its, ierr())
+			its = append(its, ierrK(errKinds[r.Intn(len(errKinds))]))
 		}
 		as[k] = ok(its...)
 	}
@@ -862,6 +981,9 @@ func randActs(r *vh.Rand, as []Attempt, reconnect bool) []Act {
 			a.What = "cancel"
 		}
 		a.Delay = []int{0, 0, 100, 500, 3000}[r.Intn(5)]
+		if strings.HasPrefix(a.Gate, "dial") {
+			a.Delay = []int{0, 2000, 20000, 60000}[r.Intn(4)]
+		}
 		acts = append(acts, a)
 	}
 	return acts
@@ -971,6 +1093,7 @@ func main() {
 	client.RetryBaseDelay = 2 * time.Millisecond
 	client.RetryMaxDelay = 8 * time.Millisecond
 	client.RetryRandomization = 0
+	setupDialTargets()
 	if err := client.RegisterTest("c18", factory); err != nil {
 		vh.Die("register: %v", err)
 	}
@@ -994,6 +1117,34 @@ func main() {
 					for _, c := range readCases(dir + "/" + en.Name()) {
 						c.Family = "corpus"
 						cs = append(cs, c)
+					}
+				}
+			}
+		}
+		// the real client/gnmi constructor against targets that never connect
+		dkinds := []string{"rebase", "base"}
+		if o.Thorough() {
+			dkinds = []string{"rebase", "recache", "base", "cache"}
+		}
+		for _, target := range []string{"silent", "refuse", "closing"} {
+			for _, kind := range dkinds {
+				rc := strings.HasPrefix(kind, "re")
+				scs := [][]Attempt{{{Dial: target}}}
+				if rc {
+					scs = append(scs, []Attempt{ok(msg(), eof()), {Dial: target}})
+				}
+				for _, as := range scs {
+					k := len(as) - 1
+					whats := []string{"cancel"}
+					if rc {
+						whats = []string{"close", "cancel"}
+					}
+					cs = append(cs, Case{Family: "dial", Kind: kind, Inner: "fake", Attempts: as})
+					for _, what := range whats {
+						cs = append(cs, Case{Family: "dial", Kind: kind, Inner: "fake", Attempts: as, Ops: []Act{{Gate: fmt.Sprintf("init:%d", k), What: what}}})
+						for _, d := range []int{0, 3000, 30000} {
+							cs = append(cs, Case{Family: "dial", Kind: kind, Inner: "fake", Attempts: as, Ops: []Act{{Gate: fmt.Sprintf("dial:%d", k), What: what, Delay: d}}})
+						}
 					}
 				}
 			}
